@@ -72,11 +72,12 @@ def make_case(seed, i):
     in_place = rng.choice([0.0, 0.5, 1.0])
     kinds_main = (E.COMPATIBLE + E.PARTIAL) if has_versions else (E.COMPATIBLE + E.PARTIAL + E.FREE)
     removed_targets = {}
+    toggled = []
     for e in range(n_edits):
         r = rng.fork("edit", e)
         if e > 0 and r.fork("pause").chance(0.2):
             edits.append({"kind": "pause"})      # the person at the editor waits until the tool has gone quiet
-        kind = r.weighted([("model", 5), ("import_model", 3 if state.imports else 0), ("manifest", 2), ("break_repair", 2), ("touch", 1),
+        kind = r.weighted([("model", 5), ("import_model", 3 if state.imports else 0), ("manifest", 4), ("break_repair", 2), ("touch", 1),
                            ("import_manifest_break_repair", 2 if state.imports else 0), ("subdir", 1.5), ("replace_import_dir", 1.5 if state.imports else 0)])
         if kind == "subdir":
             # directory life cycle inside the package directory: a new sub-directory with a model file (mkdir, then the
@@ -171,7 +172,7 @@ def make_case(seed, i):
                 opts.append("drop_versions")
             flags = [(t, f) for t in sorted(state.targets) for f in M.TARGET_FLAGS.get(t, [])]
             if flags:
-                opts += ["toggle_option", "toggle_option"]
+                opts += ["toggle_option"] * 5
             # the package's own directory listed as a version under a second name ("../pkg"): the same directory is then
             # both the watched "." and a referenced package directory
             opts.append("drop_self_version" if state.self_version else "self_version")
@@ -194,7 +195,10 @@ def make_case(seed, i):
                 state.versions = []
                 kinds_main = E.COMPATIBLE + E.PARTIAL + E.FREE
             elif op == "toggle_option":
-                t, f = r.choice(flags)
+                # half of the time an option that was switched before is switched back (off and on again in one session)
+                again = [tf for tf in toggled if tf in flags]
+                t, f = r.choice(again) if again and r.chance(0.5) else r.choice(flags)
+                toggled.append((t, f))
                 cur_v = state.targets[t].get(f, True)
                 state.targets[t] = dict(state.targets[t], **{f: not cur_v})
                 op = "toggle %s.%s -> %s" % (t, f, not cur_v)
@@ -422,7 +426,7 @@ def main():
         sys.exit(1 if ok else 0)
     quick = args.tier == "quick"
     budget = check.budget(90, 1800)
-    max_cases = 320 if quick else 10**7
+    max_cases = 640 if quick else 10**7
     tot = {"runs": 0, "cases": 0, "final_invalid": 0, "steps": 0, "sim_ms": 0.0, "faults_fired": 0}
     probes = {}
     sigs = set()
